@@ -4,9 +4,9 @@ INV = "TypeOK Sync CanMakeCallsConsistent ServedByLive UnavailOnlyIfEmpty Resuma
 def design(name, n, sess, rpc, inlock="TRUE", invs=INV, wedged=1, reset="TRUE"):
     open(name + ".cfg", "w").write("SPECIFICATION Spec\nCONSTANTS\n  N = %d\n  MaxSess = %d\n  MaxRpc = %d\n  InLock = %s\n  MaxWedged = %d\n  AllowReset = %s\nINVARIANTS %s\nCHECK_DEADLOCK FALSE\n"
                                    % (n, sess, rpc, inlock, wedged, reset, invs))
-def sim(name, n, sess, rpc, depth, burst=1, wedged=0, hold=0, sick=0, reset=0):
-    open(name + ".cfg", "w").write("INIT SimInit\nNEXT SimNext\nCONSTANTS\n  N = %d\n  MaxSess = %d\n  MaxRpc = %d\n  InLock = TRUE\n  MaxWedged = %d\n  MaxBurst = %d\n  MaxHold = %d\n  MaxSick = %d\n  MaxReset = %d\n  AllowReset = TRUE\n  Depth = %d\nCHECK_DEADLOCK FALSE\n"
-                                   % (n, sess, rpc, wedged, burst, hold, sick, reset, depth))
+def sim(name, n, sess, rpc, depth, burst=1, wedged=0, hold=0, sick=0, reset=0, idle=0):
+    open(name + ".cfg", "w").write("INIT SimInit\nNEXT SimNext\nCONSTANTS\n  N = %d\n  MaxSess = %d\n  MaxRpc = %d\n  InLock = TRUE\n  MaxWedged = %d\n  MaxBurst = %d\n  MaxHold = %d\n  MaxSick = %d\n  MaxReset = %d\n  MaxIdle = %d\n  AllowReset = TRUE\n  Depth = %d\nCHECK_DEADLOCK FALSE\n"
+                                   % (n, sess, rpc, wedged, burst, hold, sick, reset, idle, depth))
 design("cc_lock2", 2, 3, 2)
 design("cc_lock3", 3, 4, 2)
 design("cc_lock3_t", 3, 5, 3, wedged=0, reset="FALSE")
@@ -21,3 +21,5 @@ sim("sim_c3", 3, 8, 3, 28, 4, wedged=1, hold=2, sick=2, reset=2)
 sim("bfs_c2w", 2, 3, 1, 8, 1, wedged=1, hold=1)
 # exhaustive: one slot, transport resets of the live session between calls
 sim("bfs_c1r", 1, 2, 1, 9, 2, reset=2)
+# exhaustive: one slot, the channel idles between calls / adds / kills
+sim("bfs_c1i", 1, 2, 1, 8, 2, idle=1)
